@@ -13,6 +13,12 @@ read the wrong number of bits:
                 (left.has_padding or right.has_padding) — decided by evaluating the constructor's boolean expression on
                 all 12 cases (two flags x three orderings of the widths); a flag that is true more often is sound
                 (it only disables the fast path) and is merely noted
+  C10.typedir   inside their work loops the decoder and the pruner take every type from the task they popped, never from
+                the function's own type parameter again (which is only the root task), and Value::unit() is produced only
+                in the arm where the task type's bound is Unit (a zero-width product is not unit)
+  C10.accessor  the views returned by ValueRef::as_left / as_right / as_product sit where the padded layout puts the
+                component: offset + 1 + max(wl, wr) - wl (resp. - wr) behind a first bit of 0 (resp. 1), and
+                (offset, offset + wl) for a product — compared as linear forms, so any equivalent spelling passes
   C10.fastpath  Value::from_compact_bits hands a type to the padded decoder only on a path where has_padding() of that
                 very type was tested and was false; Final values are built only by unit/sum/product
                 (so the flag of every type is one of the evaluated expressions)
@@ -20,7 +26,7 @@ read the wrong number of bits:
 import re
 import facts as fm
 import expr
-from facts import Terms, show
+from facts import Terms, show, leaves
 
 VALUE = "simplicity::value::Value::"
 FINAL = "simplicity::types::final_data::Final"
@@ -66,9 +72,13 @@ def aggregates(f, T):
 def run(ctx, rep):
     F = ctx.facts("full")
     rep.rule("C10.sumtype", "continuations of sum injections carry the other summand's type; sub-tasks pair a value side with the type of the same side; 0 bit = left")
+    rep.rule("C10.typedir", "work loops use the popped task's type only; unit values only under bound == Unit")
+    rep.rule("C10.accessor", "as_left/as_right/as_product position their views by the padded layout formulas (linear normal form)")
     rep.rule("C10.padflag", "has_padding is implied by the presence of padding, for every combination of child flags and width orderings")
     rep.rule("C10.fastpath", "padded fast path of the compact decoder only under a false has_padding() of the same type; Final built only by unit/sum/product")
     sumtype(F, rep)
+    typedirected(F, rep)
+    accessors(F, rep)
     padflag(F, rep)
     fastpath(F, rep)
     return FINISH
@@ -462,3 +472,231 @@ def fastpath(F, rep):
         else:
             rep.violation("C10.fastpath", "from_compact_bits:guard", "from_padded_bits(%s) is reachable without a false has_padding() test of that type" % ty[:80], f.where())
     rep.floor("C10.fastpath", rep.instances("C10.fastpath"), 4)
+
+
+# ---------------------------------------------------------------------------------------------------------------------
+
+def typedirected(F, rep):
+    for nm, tyname in (("from_compact_bits", "ty"), ("prune", "pruned_ty")):
+        f = F.fn(VALUE + nm)
+        if f is None:
+            rep.anchor("C10.typedir", "Value::" + nm)
+            continue
+        T = Terms(f)
+        names = f.param_names()
+        if tyname not in names:
+            rep.anchor("C10.typedir", "Value::%s parameter %s" % (nm, tyname))
+            continue
+        pidx = names.index(tyname) + 1
+        bad = []
+        n_uses = 0
+        for b in f.rpo():
+            if not f.in_loop(b):
+                continue
+            ops = []
+            for s in f.blocks[b]["s"]:
+                if s[0] == "=":
+                    rv = s[2]
+                    for key in ("a", "b"):
+                        if isinstance(rv.get(key), dict):
+                            ops.append((rv[key], s[3] if len(s) > 3 else None))
+                    for o in rv.get("ops", []):
+                        ops.append((o, s[3] if len(s) > 3 else None))
+            t = f.blocks[b]["t"]
+            if t["k"] == "call":
+                for o in t["args"]:
+                    ops.append((o, t.get("line")))
+            for o, line in ops:
+                if o.get("k") not in ("copy", "move"):
+                    continue
+                term = T.operand(o)
+                n_uses += 1
+                # a direct use of the parameter (not through a popped task)
+                direct = [lf for lf in leaves(term) if lf[0] in ("param", "parampath") and lf[1] == pidx]
+                popped = "pop(" in expr.canon(term)
+                if direct and not popped:
+                    bad.append((line, expr.canon(term)[:80]))
+        if bad:
+            rep.violation("C10.typedir", nm + ":param", "Value::%s uses its parameter `%s` inside the work loop (%s): a sub-task would be decided by the root type instead of its own"
+                          % (nm, tyname, bad[0][1]), "%s:%s" % (f.file, bad[0][0]))
+        else:
+            rep.ok("C10.typedir", nm + ": loop reads types from the popped task only", n_uses)
+        # Value::unit() only under bound == Unit of the task type
+        units = [cs for cs in f.calls() if cs.callee == VALUE + "unit"]
+        sw = [(b, si) for b, si in fm.enum_switches(f, "final_data::CompleteBound")]
+        for cs in units:
+            ok = False
+            for b, si in sw:
+                tgt = si[2].get("Unit")
+                if tgt is not None and f.dominates(tgt, cs.bb):
+                    others = [x for v, x in si[2].items() if v != "Unit"]
+                    if not any(f.dominates(x, cs.bb) for x in others):
+                        ok = True
+            if ok:
+                rep.ok("C10.typedir", "%s: Value::unit() only where the task type's bound is Unit" % nm, None)
+            else:
+                rep.violation("C10.typedir", nm + ":unit", "Value::%s produces Value::unit() outside the arm for CompleteBound::Unit: a zero-width type that is not unit "
+                              "(1 x 1) would be given a value of the wrong type" % nm, cs.where())
+    rep.floor("C10.typedir", rep.instances("C10.typedir"), 4)
+
+
+def lin(t, env):
+    """linear form {atom: coeff} (constant under "1") of an integer term; None if not linear"""
+    if not isinstance(t, tuple) or not t:
+        return None
+    k = t[0]
+    if k == "int":
+        return {"1": int(t[1])}
+    if k == "field" and t[2] == "0" and isinstance(t[1], tuple) and t[1][0] == "bin" and t[1][1].endswith("WithOverflow"):
+        return lin(("bin", t[1][1], t[1][2], t[1][3]), env)
+    if k == "bin":
+        op = t[1]
+        a, b = lin(t[2], env), lin(t[3], env)
+        if a is None or b is None:
+            return None
+        sign = 1 if op in expr.ARITH_ADD else (-1 if op in expr.ARITH_SUB else None)
+        if sign is None:
+            return None
+        out = dict(a)
+        for key, c in b.items():
+            out[key] = out.get(key, 0) + sign * c
+        return {key: c for key, c in out.items() if c != 0}
+    if k == "call" and t[2] == "max" and len(t[3]) == 2:
+        a, b = lin(t[3][0], env), lin(t[3][1], env)
+        if a is None or b is None:
+            return None
+        return {"max(%s)" % " , ".join(sorted([show_lin(a), show_lin(b)])): 1}
+    if k == "call" and t[2] == "bit_width" and len(t[3]) == 1:
+        name = env(t[3][0])
+        if isinstance(name, dict):
+            return name
+        return {"W(%s)" % name: 1}
+    if k == "call" and t[2] in ("pad_left", "pad_right") and len(t[3]) == 2:
+        l, r = lin(("call", "", "bit_width", (t[3][0],)), env), lin(("call", "", "bit_width", (t[3][1],)), env)
+        m = {"max(%s)" % " , ".join(sorted([show_lin(l), show_lin(r)])): 1}
+        sub = l if t[2] == "pad_left" else r
+        for key, c in sub.items():
+            m[key] = m.get(key, 0) - c
+        return {key: c for key, c in m.items() if c != 0}
+    if k == "field" and isinstance(t[1], tuple) and t[1][0] == "param" and t[2] == "bit_offset":
+        return {"offset": 1}
+    if k in ("cast", "un") and len(t) >= 3:
+        return lin(t[-1], env)
+    return None
+
+
+def const_bytes(f, o, depth=0):
+    """hex bytes of the constant an operand (possibly a reference to a promoted constant) denotes"""
+    if o.get("k") == "const":
+        return o.get("bytes")
+    if o.get("k") in ("copy", "move") and depth < 5:
+        for (bb, i, kind, pl) in f.defs().get(o["p"][0], []):
+            if kind != "assign":
+                continue
+            rv = pl[2]
+            if rv.get("k") == "use":
+                r = const_bytes(f, rv["a"], depth + 1)
+                if r is not None:
+                    return r
+            if rv.get("k") == "ref":
+                r = const_bytes(f, {"k": "copy", "p": [rv["p"][0], []]}, depth + 1)
+                if r is not None:
+                    return r
+    return None
+
+
+def show_lin(d):
+    return " + ".join("%s%s" % ("" if c == 1 else "%d*" % c, k) if k != "1" else str(c) for k, c in sorted(d.items())) or "0"
+
+
+def accessors(F, rep):
+    VR = "simplicity::value::ValueRef::<'v>::"
+
+    def env_for(kind):
+        def env(t):
+            s = expr.canon(t)
+            m = re.search(r"as_%s\(self\.ty\)@Some\.0\.(\d)$" % kind, s)
+            if m:
+                return "l" if m.group(1) == "0" else "r"
+            if s == "self.ty" and kind == "sum":
+                # the width of the sum itself: 1 + max(W(l), W(r))  (Final::sum, compared with C under C03.width)
+                return {"1": 1, "max(W(l) , W(r))": 1}
+            return s
+        return env
+    spec = {
+        "as_left": [({"offset": 1, "1": 1, "max(W(l) , W(r))": 1, "W(l)": -1}, "0", False)],
+        "as_right": [({"offset": 1, "1": 1, "max(W(l) , W(r))": 1, "W(r)": -1}, "1", True)],
+        "as_product": [({"offset": 1}, "0", None), ({"offset": 1, "W(l)": 1}, "1", None)],
+    }
+    for nm, want in sorted(spec.items()):
+        f = F.fn(VR + nm)
+        if f is None:
+            rep.anchor("C10.accessor", "ValueRef::" + nm)
+            continue
+        T = Terms(f)
+        kind = "product" if nm == "as_product" else "sum"
+        env = env_for(kind)
+        got = []
+        for b in f.rpo():
+            for s in f.blocks[b]["s"]:
+                if s[0] == "=" and s[2].get("k") == "agg" and str(s[2].get("adt", "")).endswith("ValueRef") and "bit_offset" in (s[2].get("fields") or []):
+                    fields = s[2]["fields"]
+                    off = T.operand(s[2]["ops"][fields.index("bit_offset")])
+                    ty = expr.canon(T.operand(s[2]["ops"][fields.index("ty")]))
+                    m = re.search(r"as_%s\(self\.ty\)@Some\.0\.(\d)$" % kind, ty)
+                    got.append((lin(off, env), m.group(1) if m else "?" + ty[:40], b))
+        if len(got) != len(want):
+            rep.violation("C10.accessor", nm + ":views", "ValueRef::%s builds %d views, expected %d" % (nm, len(got), len(want)), f.where())
+            continue
+        for (w_off, w_ty, w_bit) in want:
+            cand = [g for g in got if g[1] == w_ty]
+            key = "%s: component %s" % (nm, w_ty)
+            if len(cand) != 1:
+                rep.violation("C10.accessor", key, "ValueRef::%s returns no view typed with component %s of the type" % (nm, w_ty), f.where())
+                continue
+            g_off, _, blk = cand[0]
+            if g_off != w_off:
+                rep.violation("C10.accessor", key, "ValueRef::%s places component %s at %s; the padded layout puts it at %s"
+                              % (nm, w_ty, show_lin(g_off) if g_off is not None else "a non-linear expression", show_lin(w_off)), f.where())
+                continue
+            if w_bit is not None:
+                # reached only when first_bit() == Some(w_bit)
+                okp = False
+                for cs in f.calls():
+                    if cs.name in ("eq", "ne") and len(cs.args) == 2:
+                        a = [T.operand(x) for x in cs.args]
+                        txt = [expr.canon(x) for x in a]
+                        if not any("first_bit" in x for x in txt):
+                            continue
+                        const = [x for x in a if isinstance(x, tuple) and "first_bit" not in expr.canon(x)]
+                        cv = None
+                        for x in const:
+                            mm = re.search(r"Some\{(\d)\}", expr.canon(x))
+                            if mm:
+                                cv = bool(int(mm.group(1)))
+                        # a promoted constant Option<bool>: one byte, 00 = Some(false), 01 = Some(true), 02 = None
+                        for o in cs.args:
+                            hb = const_bytes(f, o)
+                            if hb in ("00", "01"):
+                                cv = hb == "01"
+                        cur = cs.t.get("target")
+                        for _ in range(4):
+                            t = f.blocks[cur]["t"]
+                            if t["k"] == "switch":
+                                true_t = [tg for v, tg in t["targets"] if v != "0"]
+                                true_t = true_t[0] if true_t else t["otherwise"]
+                                false_t = [tg for v, tg in t["targets"] if v == "0"]
+                                false_t = false_t[0] if false_t else t["otherwise"]
+                                eq_t = true_t if cs.name == "eq" else false_t
+                                if cv == w_bit and f.dominates(eq_t, blk) and eq_t != (false_t if cs.name == "eq" else true_t):
+                                    okp = True
+                                break
+                            if t["k"] == "goto":
+                                cur = t["target"]
+                            else:
+                                break
+                if not okp:
+                    rep.violation("C10.accessor", key + ":tag", "ValueRef::%s does not return its view exactly when the first bit is %d" % (nm, int(w_bit)), f.where())
+                    continue
+            rep.ok("C10.accessor", key, show_lin(w_off))
+    rep.floor("C10.accessor", rep.instances("C10.accessor"), 4)
